@@ -55,7 +55,7 @@ static int         bufr_get_desc_ccittia5   ( BUFR_Message *bufr, BufrDescriptor
 static void        bufr_put_af_compressed    ( BUFR_Message *msg, BUFR_Dataset *, BufrDescriptor *, int j );
 static void        bufr_put_ccitt_compressed ( BUFR_Message *msg, BUFR_Dataset *dts, int j );
 static void        bufr_put_ieeefp_compressed( BUFR_Message *msg, BUFR_Dataset *dts, int j );
-static DataSubset *bufr_duplicate_datasubset ( DataSubset *dss );
+static DataSubset *bufr_duplicate_datasubset ( DataSubset *dss, BUFR_Tables *tbls );
 static void        bufr_put_numeric_compressed
                            ( BUFR_Message *msg, BUFR_Dataset *dts, BufrDescriptor *bcv, int j );
 static int         bufr_get_ccitt_compressed 
@@ -495,7 +495,7 @@ int bufr_expand_datasubset( BUFR_Dataset *dts, int dss_pos )
  * @author Vanh Souvanlasy
  * @ingroup dataset
  */
-static DataSubset *bufr_duplicate_datasubset( DataSubset *dss )
+static DataSubset *bufr_duplicate_datasubset( DataSubset *dss, BUFR_Tables *tbls )
    {
    DataSubset  *subset;
    int          i, count;
@@ -509,6 +509,12 @@ static DataSubset *bufr_duplicate_datasubset( DataSubset *dss )
       {
       bc = bufr_datasubset_get_descriptor( dss, i );
       bc = bufr_dupl_descriptor( bc );
+/*
+ * the Table B entry of the original belongs to the tables of the source dataset, which may be released
+ * before the copy: the copy refers to the entry of the tables it will live with
+ */
+      if (bc->etb)
+         bc->etb = bufr_fetch_tableB( tbls, bc->descriptor );
       arr_add( subset->data , (char *)&bc );
       }
 
@@ -3460,7 +3466,7 @@ int bufr_merge_dataset ( BUFR_Dataset *dest, int dest_pos, BUFR_Dataset *src,  i
       {
       pos = i + dest_pos;
       ss = bufr_get_datasubset( src, src_pos + i );
-      dss = bufr_duplicate_datasubset( ss );
+      dss = bufr_duplicate_datasubset( ss, dest->tmplte->tables );
       if ( pos < destcount )
          {
          oss = bufr_get_datasubset( dest, pos );
